@@ -42,6 +42,9 @@ def run(rep):
                 cs.add(f"scan_lines 1 {tokf}", kind="scan1", **m)
                 cs.add(f"raw_data_size {pg.img_token(w, h, ct, depth, il, pal, b'')}", kind="rawsize", **m)
                 cs.add(("deinterlace " if il else "interlace ") + tok, kind="conv", **m)
+                if w * h <= 64 or k % 5 == 0:
+                    # the same conversion through PngImage::change_interlacing, the entry point the optimiser uses
+                    cs.add(f"chil {0 if il else 1} {tok}", kind="conv", **m)
     ri = vlib.run_cases(impl, cs.lines)
     rm = vlib.run_cases(model, cs.lines)
     rep.evaluations += len(cs.lines)
